@@ -137,6 +137,13 @@ func runC08(env *Env) {
 		stopNoise()
 		env.Count(fmt.Sprintf("noise/other-exporters-sends>=%d", (noiseSends/1000)*1000))
 	}()
+	// export time under contention (c08b.go), run beside the histories
+	stallRes := make(chan string, 1)
+	go func() { stallRes <- c08Stall() }()
+	defer func() {
+		env.Emit("C08 stall", <-stallRes)
+		env.Count("shape/export-time-of-a-send-that-waited-its-turn")
+	}()
 	small := oneFieldTpl(256, entities.Unsigned8, 4)
 	// the wrap, exactly: counter 2^32-3, then 1, 2 (hits 0), 5 records
 	for _, proto := range []string{"tcp", "udp"} {
